@@ -213,8 +213,8 @@ def run_native_coefficients(acc, only=None):
 
 def tier_params(tier, seed):
     if tier == 'quick':
-        return {'choices': [0, 1 + seed % 3], 'scales': [1e-3, 1.0, 1e3, 1e6]}
-    return {'choices': [0, 1, 2, 3], 'scales': [1e-3, 1e-1, 1.0, 1e3, 1e6]}
+        return {'choices': [0, 1 + seed % 3], 'scales': [1e-9, 1e-3, 1.0, 1e3, 1e6, 1e9]}
+    return {'choices': [0, 1, 2, 3], 'scales': [1e-12, 1e-9, 1e-6, 1e-3, 1e-1, 1.0, 1e3, 1e6, 1e9, 1e12]}
 
 
 def shards(tier, seed):
@@ -259,11 +259,18 @@ LATTICE = [0j, 1 + 0j, -7.5 + 0.1j, 0.1 + 1j / 3, 2.5e5 - 1.0e5j, -1j, 2 + 0j, 1
 ROT = complex(0.6, 0.8)        # a rotation with exactly representable entries
 
 
+# parameters close to (not at) the ends: anything that "snaps" a nearby parameter to 0 or 1 shows here
+NEAR_ENDS = [1e-9, 1e-6, 3e-5, 1.0 - 3e-5, 1.0 - 4e-6, 1.0 - 1e-6, 1.0 - 1e-9]
+
+
 def float_cases(kind, scales, tier='quick'):
     lib = {'L': AB.LINES, 'Q': AB.QUADS, 'C': AB.CUBICS}[kind]
     for name, pts in lib.items():
         for sc in scales:
             yield name, sc, [complex(p) * sc for p in pts]
+    # ordinary-size shapes a million units from the origin (both tiers)
+    for name, pts in lib.items():
+        yield 'far6:' + name, 1.0, [complex(p) + (1.0e6 + 1.0e6j) for p in pts]
     if tier == 'thorough':
         # every assignment of the control points over a small lattice of values (all coincidence
         # patterns: repeated points, closed curves, retraced legs, one far-away point) and the
@@ -282,7 +289,7 @@ def exact_pts(pts):
 
 def run_float(kind, scales, acc, only=None, tier='quick', part=None):
     cls, n = CLASSES[kind]
-    ts = AB.T_ALPHABET + AB.T_OUTSIDE
+    ts = AB.T_ALPHABET + AB.T_OUTSIDE + NEAR_ENDS
     for ci, (name, sc, pts) in enumerate(float_cases(kind, scales, tier)):
         if part is not None and ci % part[1] != part[0]:
             continue
